@@ -177,7 +177,7 @@ with pArgs (n : nat) (ts : list tok) {struct n} : option (list expr * list tok) 
     end
   end.
 
-Definition fuel_for (ts : list tok) : nat := 12 * List.length ts + 12.
+Definition fuel_for (ts : list tok) : nat := 16 * List.length ts + 16.
 Definition parse_toks (ts : list tok) : option expr :=
   match pE (fuel_for ts) ts with Some (e, []) => Some e | _ => None end.
 Definition parse (s : str) : option expr :=
